@@ -178,3 +178,50 @@ def tier_summary(body):
                         back = True
             res["result_to_acc"] = back
     return res
+
+
+def skeleton_paths(body, peers=(), F=None, inline=None, rename=None, limit=4000, _stack=()):
+    """The set of maximal cursor/parse step sequences along the acyclic paths of the function (each loop body at most
+    once; sequences that are proper prefixes of another one -- the early error exits -- are dropped).  Independent of the
+    order in which the compiler laid out the arms of a branch."""
+    pref = fork_prefix(body)
+    per_block = {}
+    for b in body.reachable():
+        c = body.call_at(b)
+        if c is None:
+            continue
+        nm = c.callee.split("::")[-1]
+        if c.callee.startswith("abasic_core::program::Program::") and nm in CURSOR:
+            det = token_arg(body, c) if nm in ("accept_next_token", "expect_next_token", "try_next_token") else None
+            per_block[b] = [((nm, det),)]
+        elif c.is_local and (c.callee.startswith(pref + "::") or any(c.callee.startswith(p + "::") for p in peers)) \
+                and nm not in ("program", "new", "expression_analyser"):
+            if F is not None and not consumes(F, c.callee):
+                continue
+            if inline is not None and F is not None and c.callee in F.bodies and c.callee not in _stack and \
+                    c.callee != body.path and inline(c.callee):
+                sub = skeleton_paths(F.bodies[c.callee], peers, F, inline, rename, limit, _stack + (body.path,))
+                per_block[b] = sorted(sub) if sub else [()]
+            else:
+                per_block[b] = [(("call", rename.get(nm, nm) if rename else nm),)]
+    seqs = set()
+    for path in body.paths(limit=limit):
+        if body.term(path[-1])["k"] == "unreachable":
+            continue
+        cur = [()]
+        for b in path:
+            opts = per_block.get(b)
+            if not opts:
+                continue
+            cur = [x + o for x in cur for o in opts]
+            if len(cur) > limit:
+                raise OverflowError("too many step sequences in %s" % body.path)
+        for x in cur:
+            # ordered-distinct, like skeleton(distinct=True): merged arms repeat steps
+            d = []
+            for it in x:
+                if it not in d:
+                    d.append(it)
+            seqs.add(tuple(d))
+    maximal = {x for x in seqs if not any(y != x and y[:len(x)] == x for y in seqs)}
+    return frozenset(maximal)
